@@ -239,6 +239,26 @@ CLAIMS['C20'] = dict(
     technique='symbolic child geometry + index-space typing + coefficient-'
     'pattern comparison on the AST', engine='E7-signs')
 
+CLAIMS['C09'] = dict(
+    category='other',
+    text='Exponent algebra of the weighted-L2 pair; left/right ordering of '
+    'every neighbour kind (incl. both seam directions and the self pair) '
+    'on every reachable branch; the one-piece seminorm interval is lo < hi '
+    'of length h_left + h_right on every feasible path -- which exposes '
+    'the recorded finding F6 (seam pair on the one-piece circle); union/'
+    'intersection of the patches as defined; complementary strict '
+    'producer/consumer comparisons of the symmetry shortcut with column '
+    'tags; serial = pool.  Numerical agreement with an independent double '
+    'integral is not decided.',
+    design_ref='DESIGN.md section 3 E4 (R-patch), section 4 C09, section 5 '
+    'F6',
+    note='Trusted: ast, sympy, linear fact domain, the adjacency axioms '
+    'supplied by C10/C18.  Known finding F6 suppresses exactly the '
+    'obligation "seam adjacency, same piece" of __integrate_h_1_2.',
+    technique='path-sensitive branch analysis under adjacency axioms with '
+    'linear-inequality entailment + monomial algebra + effect rules',
+    engine='E4-panels')
+
 PENDING = 'rule set not yet implemented in this build (see DESIGN.md Appendix F for the order)'
 NA = {
     'C13':
